@@ -148,3 +148,96 @@ kproof! {
         core::mem::forget(out); core::mem::forget(blk); core::mem::forget(w);
     }
 }
+
+// ---------------------------------------------------------------------------
+// Dynamic header: HuffmanOriginalEncoding::read / write (C07, C05)
+// ---------------------------------------------------------------------------
+/// bit source that replays a concrete SCRIPT for the first calls (header counts and the code-length code, so
+/// that the Huffman tree of the code-length alphabet is concrete) and hands out symbolic bits afterwards
+/// (which RLE items follow, their extra bits); everything is recorded for the comparison with the writer
+pub const SB_N: usize = 64;
+pub struct ScriptBits {
+    pub script: [(u32, u8); 24],
+    pub m: usize,
+    pub val: [u32; SB_N],
+    pub cnt: [u8; SB_N],
+    pub n: usize,
+    pub budget: usize,
+}
+impl crate::bit_reader::ReadBits for ScriptBits {
+    fn get(&mut self, cbit: u32) -> std::io::Result<u32> {
+        kani::assume(self.n < self.budget);
+        let v = if self.n < self.m {
+            assert!(self.script[self.n].1 as u32 == cbit, "script out of step with the reader");
+            self.script[self.n].0
+        } else {
+            let x: u32 = kani::any();
+            x & ((1u32 << cbit) - 1)
+        };
+        self.val[self.n] = v;
+        self.cnt[self.n] = cbit as u8;
+        self.n += 1;
+        Ok(v)
+    }
+}
+
+/// HLIT = 257, HDIST = 1 (258 code lengths), HCLEN = 19 - 15 = 4..: code-length code with lengths
+/// {0: 2, 8: 2, 18: 2, 16: 3, 17: 3} (complete), all other symbols unused.
+fn dyn_header(max_gets: usize) {
+    // order: 16 17 18 0 8 7 9 6 10 5 11 4 12 3 13 2 14 1 15 -> HCLEN = 5 entries (16,17,18,0,8)
+    let mut script = [(0u32, 0u8); 24];
+    script[0] = (0, 5); // HLIT - 257
+    script[1] = (0, 5); // HDIST - 1
+    script[2] = (1, 4); // HCLEN - 4 = 1 -> 5 entries
+    script[3] = (3, 3); // 16
+    script[4] = (3, 3); // 17
+    script[5] = (2, 3); // 18
+    script[6] = (2, 3); // 0
+    script[7] = (2, 3); // 8
+    let mut bits = ScriptBits { script, m: 8, val: [0; SB_N], cnt: [0; SB_N], n: 0, budget: max_gets };
+    let r = HuffmanOriginalEncoding::read(&mut bits);
+    if let Ok(enc) = &r {
+        assert!(enc.num_literals == 257 && enc.num_dist == 1 && enc.num_code_lengths == 5);
+        // C05: the run-length items cover exactly HLIT + HDIST code lengths (what predict_ld_trees asserts)
+        let mut total = 0usize;
+        let mut i = 0;
+        while i < 8 {
+            if i < enc.lengths.len() { total += if enc.lengths[i].0 == TreeCodeType::Code { 1 } else { enc.lengths[i].1 as usize }; }
+            i += 1;
+        }
+        assert!(enc.lengths.len() <= 7); // 16 reads: two long zero runs (3 reads each) + at most 5 more items
+        assert!(total == 258, "accepted a code length table that does not have HLIT + HDIST entries");
+        // C07: writing the header back gives exactly the bits that were read
+        let mut bw = BitWriter::default();
+        let mut out: Vec<u8> = Vec::with_capacity(32);
+        enc.write(&mut bw, &mut out).unwrap();
+        bw.pad(0, &mut out);
+        let mut exp: u128 = 0;
+        let mut nb: u32 = 0;
+        let mut i = 0;
+        while i < SB_N {
+            if i < bits.n {
+                // Huffman codes are read bit by bit (get(1)): the recorded order IS the stream order
+                exp |= (bits.val[i] as u128) << nb;
+                nb += bits.cnt[i] as u32;
+            }
+            i += 1;
+        }
+        assert!(nb <= 120);
+        let nbytes = ((nb + 7) / 8) as usize;
+        assert!(out.len() == nbytes, "rewritten dynamic header has a different length");
+        let mut i = 0;
+        while i < 16 { if i < nbytes { assert!(out[i] == ((exp >> (8 * i)) & 0xff) as u8, "rewritten dynamic header differs from the bits that were read"); } i += 1; }
+        core::mem::forget(out);
+    }
+    kani::cover!(matches!(&r, Ok(e) if e.lengths.len() == 3), "accepted: three run-length items");
+    kani::cover!(matches!(&r, Ok(e) if e.lengths.len() >= 4 && e.lengths[3].0 == TreeCodeType::Repeat), "accepted: a repeat code (16) late in the table");
+    kani::cover!(r.is_err(), "rejected (items overrun HLIT + HDIST)");
+    core::mem::forget(r);
+}
+kproof! {
+    /// K07c: dynamic header with a concrete code-length code and symbolic run-length items: read is total, accepts
+    /// only tables with exactly HLIT + HDIST entries, and write reproduces the bits read
+    #[kani::stub(crate::bit_writer::BitWriter::flush_whole_bytes, crate::verif_common::stub_flush_whole_bytes)]
+    fn k07c_dyn_header_rt() { dyn_header(8 + 16); }
+}
